@@ -351,6 +351,13 @@ template <> struct leaf_values<void> { template <template <class...> class V, te
 template <class Value /* TrackedT<..> or void */, int BlockingKind = 2 /* _block::_enum value: 0 always_inline, 1 always, 2 maybe, 3 never */, bool SendsDone = true>
 struct Leaf {
   int id;
+  // copying keeps the identity, moving leaves a recognisable moved-from sender behind: an adaptor that moves a child sender
+  // out of an lvalue-connected (re-connectable) sender is caught when the moved-from child is connected again
+  Leaf(int i) noexcept : id(i) {}
+  Leaf(const Leaf&) noexcept = default;
+  Leaf(Leaf&& o) noexcept : id(o.id) { o.id = -7; }
+  Leaf& operator=(const Leaf&) noexcept = default;
+  Leaf& operator=(Leaf&& o) noexcept { id = o.id; if (&o != this) o.id = -7; return *this; }
   template <template <class...> class V, template <class...> class T>
   using value_types = typename leaf_values<Value>::template apply<V, T>;
   // only exception_ptr: let_value's sender traits do not report the predecessor's error types, so a second
@@ -490,10 +497,14 @@ struct Leaf {
     }
   };
 
-  template <class R>
-  friend Op<unifex::remove_cvref_t<R>> tag_invoke(unifex::tag_t<unifex::connect>, const Leaf& l, R&& r) {
+  // connecting an rvalue sender consumes it (as just(x) moves its value out): the sender is left moved-from
+  template <class L, class R, std::enable_if_t<std::is_same_v<unifex::remove_cvref_t<L>, Leaf>, int> = 0>
+  friend Op<unifex::remove_cvref_t<R>> tag_invoke(unifex::tag_t<unifex::connect>, L&& l, R&& r) {
     W().throw_point("leaf connect");
-    return Op<unifex::remove_cvref_t<R>>{l.id, (R &&) r};
+    int id = l.id;
+    if constexpr (!std::is_lvalue_reference_v<L> && !std::is_const_v<std::remove_reference_t<L>>) l.id = -7;
+    if (id < 0) { SR_FAIL("C05", "moved_from_sender_connected", "a harness leaf sender that had already been consumed (moved from, or connected as an rvalue) was connected again: an adaptor treated a sender it was connected through as an lvalue as if it were an rvalue"); id = 0; }
+    return Op<unifex::remove_cvref_t<R>>{id, (R &&) r};
   }
 };
 
